@@ -5,6 +5,13 @@ Local Open Scope Z_scope.
 
 Definition rows_dom (cs : gset tag) (l : rows) : Prop := Forall (fun r : row => dom r = cs) l.
 
+Definition rows_domb (cs : gset tag) (l : rows) : bool := forallb (fun r : row => bool_decide (dom r = cs)) l.
+Lemma rows_domb_spec cs l : rows_domb cs l = true -> rows_dom cs l.
+Proof.
+  unfold rows_domb, rows_dom. rewrite forallb_forall. intros H. apply Forall_forall. intros r Hr.
+  apply elem_of_list_In in Hr. apply H in Hr. apply bool_decide_eq_true in Hr. exact Hr.
+Qed.
+
 Lemma restrict_id cs (r : row) : dom r ⊆ cs → restrict cs r = r.
 Proof.
   intros H. apply map_eq. intros t. rewrite restrict_lookup.
